@@ -133,31 +133,46 @@ structure SInv (g : Graph) (filt : Nat → Bool) (isSrc : Nat → Prop) (s : S) 
   tree : ∀ v, marked s.par v → ∃ l, Tree g filt isSrc (gt s.par) v l
   wl   : ∀ x, x ∈ s.wl → marked s.par x
 
-/-- trees survive a discovery pass, and every discovered node gets the tree path of `u` plus itself -/
+theorem Disc.par_old {filt : Nat → Bool} {u : Nat} {vs : List (Nat × Nat)} {s s' : S} {news : List Nat}
+    (hd : Disc filt u vs s s' news) : ∀ x, (gt s.par x).isSome = true → gt s'.par x = gt s.par x := by
+  intro x hx
+  rw [hd.par x]
+  split
+  · rename_i hn
+    rw [(hd.fresh x hn).1] at hx; cases hx
+  · rfl
+
+/-- tree paths survive a discovery pass -/
+theorem Disc.tree_old {g : Graph} {filt : Nat → Bool} {isSrc : Nat → Prop} {u : Nat} {vs : List (Nat × Nat)}
+    {s s' : S} {news : List Nat} (hd : Disc filt u vs s s' news) {v : Nat} {l : List Nat}
+    (h : Tree g filt isSrc (gt s.par) v l) : Tree g filt isSrc (gt s'.par) v l :=
+  h.mono hd.par_old
+
+/-- every discovered node gets the tree path of `u` plus itself -/
+theorem Disc.tree_new {g : Graph} {filt : Nat → Bool} {isSrc : Nat → Prop} {u : Nat} {s s' : S} {news : List Nat}
+    (hd : Disc filt u (g u) s s' news) {lu : List Nat} (hlu : Tree g filt isSrc (gt s.par) u lu)
+    {v : Nat} (hv : v ∈ news) : Tree g filt isSrc (gt s'.par) v (lu ++ [v]) := by
+  obtain ⟨hnone, _, e, he, hf⟩ := hd.fresh v hv
+  refine .node v u lu ?_ ?_ (hd.tree_old hlu) ?_ ⟨e, he, hf⟩
+  · rw [hd.par v]; simp [hv]
+  · intro e; subst e
+    have := hlu.some_of_mem _ hlu.self_mem
+    rw [hnone] at this; cases this
+  · intro hm
+    have := hlu.some_of_mem v hm
+    rw [hnone] at this; cases this
+
+/-- trees survive a discovery pass, and every discovered node gets one -/
 theorem Disc.trees {g : Graph} {filt : Nat → Bool} {isSrc : Nat → Prop} {u : Nat} {s s' : S} {news : List Nat}
     (hd : Disc filt u (g u) s s' news) (ht : ∀ v, marked s.par v → ∃ l, Tree g filt isSrc (gt s.par) v l)
     (hu : marked s.par u) :
     ∀ v, marked s'.par v → ∃ l, Tree g filt isSrc (gt s'.par) v l := by
-  have hmono : ∀ x, (gt s.par x).isSome = true → gt s'.par x = gt s.par x := by
-    intro x hx
-    rw [hd.par x]
-    split
-    · rename_i hn
-      rw [(hd.fresh x hn).1] at hx; cases hx
-    · rfl
   obtain ⟨lu, hlu⟩ := ht u hu
   intro v hv
   rcases (hd.marked_iff v).mp hv with h1 | h1
-  · obtain ⟨hnone, _, e, he, hf⟩ := hd.fresh v h1
-    refine ⟨lu ++ [v], .node v u lu ?_ ?_ (hlu.mono hmono) ?_ ⟨e, he, hf⟩⟩
-    · rw [hd.par v]; simp [h1]
-    · intro e; subst e
-      unfold marked at hu; rw [hnone] at hu; cases hu
-    · intro hm
-      have := hlu.some_of_mem v hm
-      rw [hnone] at this; cases this
+  · exact ⟨lu ++ [v], hd.tree_new hlu h1⟩
   · obtain ⟨l, hl⟩ := ht v h1
-    exact ⟨l, hl.mono hmono⟩
+    exact ⟨l, hd.tree_old hl⟩
 
 theorem loop_sound (g : Graph) (filt isT : Nat → Bool) (isSrc : Nat → Prop)
     (pop : List Nat → Option (Nat × List Nat)) (hp : PopOK pop)
